@@ -182,7 +182,36 @@ def run(prog, ctx):
     f_comp = need("hll::estimator::HipEstimator::get_composite_estimate", "C01.H")
     arrays = prog.statics.get("hll::composite_interpolation::ARRAYS", {}).get("v")
     strides = prog.statics.get("hll::composite_interpolation::Y_STRIDES", {}).get("v")
+    roles = None
     if f_comp and arrays and strides:
+        # the three private helpers behind the composite estimator, by role instead of by name: the linear-counting estimate is
+        # the call that receives the cur_min / num_at_cur_min parameters, the interpolation the one that receives the table, the
+        # raw estimate the remaining f64 helper
+        e_c = rexpr(prog, f_comp)
+        roles = {}
+        if e_c is not None:
+            pn = [f_comp.local_name(i) for i in (3, 4)]
+            for x in sym.walk(e_c):
+                if x[0] != "call" or x[1] not in prog.fns or prog.fns[x[1]].local_ty(0) != "f64":
+                    continue
+                sub = [y for a in x[2] for y in sym.walk(a)]
+                names = set(show(y) for y in sub if y[0] == "param")
+                nested = [y for y in sub if y[0] == "call" and y[1] in prog.fns]
+                if names & set(pn):
+                    role = "lin"
+                elif any(prog.fns[y[1]].local_ty(0).startswith(("&", "[")) for y in nested):
+                    role = "cubic"
+                elif not any(prog.fns[y[1]].local_ty(0) == "f64" for y in nested):
+                    role = "raw"
+                else:
+                    continue
+                roles.setdefault(role, set()).add(x[1].rsplit("::", 1)[-1])
+        if sorted(roles) != ["cubic", "lin", "raw"] or any(len(v) != 1 for v in roles.values()) or len({next(iter(v)) for v in roles.values()}) != 3:
+            n_h += 1
+            law("C01.H", "composite-estimate", None, "the helpers of the composite estimator were not identified by role (%s)" % roles)
+            roles = None
+    if f_comp and arrays and strides and roles:
+        h_raw, h_cubic, h_lin = ("@fn:" + next(iter(roles[r])) for r in ("raw", "cubic", "lin"))
         try:
             bad = None
             n = 0
@@ -195,9 +224,9 @@ def run(prog, ctx):
                     for adj in (0.3 * k, 0.7 * k, 2.9 * k, 3.0 * k, 3.5 * k):
                         for lin in (0.1 * k, 0.62 * k, 1.4 * k, 2 * cross * k * 0.99 - adj, 2 * cross * k * 1.01 - adj):
                             got = ev.call(f_comp, {"lg_config_k": lg, "cur_min": 0, "num_at_cur_min": 1,
-                                                   "@fn:get_raw_estimate": lambda *a, _r=raw: _r,
-                                                   "@fn:using_x_arr_and_y_stride": lambda *a, _a=adj: _a,
-                                                   "@fn:get_bitmap_estimate": lambda *a, _l=lin: _l})
+                                                   h_raw: lambda *a, _r=raw: _r,
+                                                   h_cubic: lambda *a, _a=adj: _a,
+                                                   h_lin: lambda *a, _l=lin: _l})
                             if raw < x[0]:
                                 want = 0.0
                             elif raw > x[-1]:
